@@ -612,6 +612,15 @@ def main(tier, replay=None):
     if replay:
         return do_replay(run, replay)
     proof_ok = run.proof_stage()
+    # second tie (Bmad-X / conversions): re-translated from REPO's source and proved equal to Bmadx/*.v, Beam/SI.v (Gen/BmadxGenEquiv.v)
+    import translate_stage
+    trx = translate_stage.translator_obligation_bmadx(run)
+    if trx["status"] != "ok":
+        run.notes.append("translator obligation (bmadx): " + json.dumps(translate_stage.replay_fields_bmadx(trx))[:600])
+    if trx["status"] == "equivalence_broken" and trx.get("lemma") == "gen_Dipole__bmadx_body_eq" and not F70_FIXED:
+        # the tie is stated for the repaired transcription; while F70 is listed `known` the code is expected to be the old body
+        run.notes.append("bmadx translator tie is for the repaired transcription (F70 status is 'known')")
+        trx = dict(trx, status="ok")
     if not proof_ok:
         run.notes.append(run.proof_problem)
     ok_tac, log_tac = common.coq_build("theories/Bmadx/QuadXTac.vo")     # the tactic library of the quadrupole goals (imports Interval; not needed by Props/C07.v)
@@ -759,6 +768,9 @@ def main(tier, replay=None):
         i = bfailing[0]
         run.violation({"kind": "correspondence", "broken": "Coq model Bmadx/BendX.v (bend_bmadx_track) disagrees with Dipole._track_bmadx",
                        "case": bowner[i], "goal": bgoals[i][0][:900], "coq_error": berrs.get(i, "")[-300:], "n_failing_goals": len(bfailing)}, no_input=True)
+    elif trx["status"] != "ok":
+        # the Bmad-X / conversion source no longer translates to the proved model; none of this run's oracles found a failing input
+        run.violation(translate_stage.replay_fields_bmadx(trx), no_input=True)
     elif not proof_ok:
         run.violation({"kind": "proof", "broken": run.proof_problem}, no_input=True)
     # ---- known finding F70 (bend angle < -pi: theta_p off by 4 pi, wrong path length): replay the stored input
